@@ -60,7 +60,7 @@ def main():
     run = Run("C06", level="proof")
     quick = run.tier != "thorough"
     rng = np.random.default_rng(run.seed)
-    l1 = run.l1(["RenoVerif/Props/C06.lean", "RenoVerif/Lemmas/ChainQN.lean"])
+    l1 = run.l1(["RenoVerif/Props/C06.lean", "RenoVerif/Lemmas/ChainQN.lean", "RenoVerif/Props/C06Tree.lean"])
     if not l1["build_ok"]:
         raise Infra("hand-written Lean library failed to build/audit: " + str(l1.get("bad")) + l1.get("log", "")[-800:])
     import lib_chain as lc
